@@ -495,7 +495,7 @@ def _ep_eval(e, v, fty):
     return None
 
 
-ENDS = {"u8": (0, 255), "u16": (0, 65535), "f32": (0.0, 1.0)}
+ENDS = {"u8": (0, 255), "u16": (0, 65535), "f32": (0.0, 1.0), "i32": (0, 2**31 - 1)}
 
 
 def endpoints(rep, prog, rule):
@@ -504,13 +504,15 @@ def endpoints(rep, prog, rule):
              "(0 -> 0 / 0.0, 255 / 65535 / 1.0 -> 255 / 65535 / 1.0): the single return expression is "
              "evaluated at the two end points, f32 operations emulated by rounding every exact result to "
              "f32. `x as f32 * 0.003_921_568_6` (a truncated literal for 1/255) gives 0.99999994 for 255. "
-             "Conversions from / to i32 are not decided by this clause (the crate maps u8::MAX to "
-             "0x7f80_0000, not to i32::MAX: what the range of an I32 component is, is its own question)")
+             "For i32 the non-negative half [0, i32::MAX] is taken as the range the unsigned types map "
+             "onto (0 -> 0 in both directions); i32 <-> f32 is left to finding 15")
     n = 0
     for f, src, tref in sorted(conversions(prog), key=lambda x: x[0].id):
         dst = f.d.get("output")
         if src not in ENDS or dst not in ENDS or src == dst:
             continue
+        if {src, dst} == {"i32", "f32"}:
+            continue            # negative I32 values: finding 15, not this clause
         n += 1
         rep.touch(f)
         key = "%s->%s" % (src, dst)
